@@ -153,7 +153,9 @@ def r2_release_restores_and_notifies(chk: Check):
     chk.require(len(cks) == 1, chk.fkey(ck, "calls check"), "the scheduled callback must call dependency.check()", chk.loc(ck.module, ck.node))
     for n, c in cks:
         conds = [(src(t.ast), pol) for t, pol in gck.guards(n) if t.kind == "test"]
-        extra = [x for x in conds if x != ("0 < self.available", True)]
+        import re as _re
+
+        extra = [x for x in conds if not (x[1] is True and _re.fullmatch(r"0 < \w+\.available", x[0]))]
         chk.require(not extra, chk.fkey(ck, "re-check unconditional"),
                     f"the notification callback re-checks a dependency only under {extra}: a job whose start is being aborted is still READY while its counter was put back to 'unsatisfied'; "
                     "a release dropped for it is never seen again and the job sleeps forever", chk.loc(ck.module, c))
